@@ -277,7 +277,7 @@ def correspond(res, rng, tier):
   common.load_pytype()
   drv = common.ensure_driver("drv_c20")
   t0 = time.time()
-  n_prog, n_indep = (50, 250) if tier == "quick" else (500, 2500)
+  n_prog, n_indep = (50, 250) if tier == "quick" else (300, 1700)
   pairs = [("hand", a, b) for a, b in HAND_CASES]
   for e in common.known_findings("C20")[0] + common.known_findings("C20")[1]:
     w = e["witness"]
